@@ -199,6 +199,26 @@ Theorem C19_access_canonicalize_eval :
 Proof. exact ap_canonicalize_eval. Qed.
 Print Assumptions C19_access_canonicalize_eval.
 
+(* ... and, when every static bound is >= 1 (SchedulePattern enforces this), every point of the canonical box
+   comes from a point of the original box with the same element: canonicalize is a bijection of the boxes *)
+Theorem C19_access_canonicalize_onto :
+  forall p y, wf_ap p -> pos_bounds (ap_bounds p) -> in_box (ap_bounds (ap_canonicalize p)) y ->
+    let x := expand (map keep_bound (ap_bounds p)) y in
+    in_box (ap_bounds p) x /\ select (map keep_bound (ap_bounds p)) x = y
+    /\ at_eval (ap_pattern p) x = at_eval (ap_pattern (ap_canonicalize p)) y.
+Proof. exact ap_canonicalize_onto. Qed.
+Print Assumptions C19_access_canonicalize_onto.
+
+(* the hypothesis is needed: a bound 0 is dropped like a bound 1, the empty box becomes a non-empty one
+   (AccessPattern / TemplatePattern accept a bound 0; modelled as is) *)
+Example C19_access_canonicalize_zero_bound_not_onto :
+  let p := AP [Some 0; Some 4] (AT [[1; 2]] [0] 2) in
+  wf_ap p /\ in_box (ap_bounds (ap_canonicalize p)) [3] /\ forall x, ~ in_box (ap_bounds p) x.
+Proof.
+  split; [split; reflexivity|]. split; [repeat constructor; lia|].
+  intros x H. inversion H as [|? v ? ? [H0 H1]]; subst. lia.
+Qed.
+
 Theorem C19_access_canonicalize_idempotent :
   forall p, wf_ap p -> ap_canonicalize (ap_canonicalize p) = ap_canonicalize p.
 Proof. exact ap_canonicalize_idempotent. Qed.
@@ -216,6 +236,12 @@ Example C19_access_canonicalize_nonvacuous :
   let p := AP [Some 1; None; Some 4; Some 1] (AT [[7; 2; 3; 9]; [0; 1; 0; 5]] [10; 0] 4) in
   ap_canonicalize p = AP [None; Some 4] (AT [[2; 3]; [1; 0]] [10; 0] 2) /\ in_box (ap_bounds p) [0; 6; 3; 0].
 Proof. split; [reflexivity | repeat constructor; lia]. Qed.
+
+Example C19_access_canonicalize_onto_nonvacuous :
+  let p := AP [Some 1; None; Some 4; Some 1] (AT [[7; 2; 3; 9]; [0; 1; 0; 5]] [10; 0] 4) in
+  wf_ap p /\ pos_bounds (ap_bounds p) /\ in_box (ap_bounds (ap_canonicalize p)) [6; 3]
+  /\ expand (map keep_bound (ap_bounds p)) [6; 3] = [0; 6; 3; 0].
+Proof. split; [split; reflexivity|]. split; [repeat constructor; lia|]. split; [repeat constructor; lia|reflexivity]. Qed.
 
 (* ---- (e) print / parse of the custom attributes (token-level model Model/C19Text.v) ---------------- *)
 From Snax Require Import Model.C19Text Proofs.C19TextProofs.
